@@ -11,18 +11,19 @@ package mc
 
 import (
 	"bytes"
-	"strings"
-	"syscall"
 	"encoding/binary"
 	"encoding/json"
 	"fmt"
+	"github.com/bokysan/socketace/v2/verifharness/syncshim"
 	"hash/fnv"
 	"os"
 	"path/filepath"
 	"runtime"
 	"sort"
 	"strconv"
+	"strings"
 	"sync"
+	"syscall"
 	"testing"
 	"time"
 )
@@ -70,13 +71,13 @@ type Run struct {
 	// bin/check can attribute a crash of the whole process (a panic on one of socketace's own
 	// goroutines cannot be recovered by the harness) to that case, report it as a violation
 	// ("process-crash|...") and restart the shard with that case skipped
-	CrashFails bool
-	skip       map[int]bool
-	memLimit     uint64 // bytes; 0 = never recycle
-	recycled     bool
-	inMemo       bool
-	journal      map[int]journalEntry
-	journalFile  *os.File
+	CrashFails  bool
+	skip        map[int]bool
+	memLimit    uint64 // bytes; 0 = never recycle
+	recycled    bool
+	inMemo      bool
+	journal     map[int]journalEntry
+	journalFile *os.File
 }
 
 type journalEntry struct {
@@ -387,16 +388,49 @@ func (r *Run) Guard(idx int, limit time.Duration, fingerprint, what string, c an
 	}
 	done := make(chan struct{})
 	go func() {
-		select {
-		case <-done:
-		case <-time.After(limit):
-			if r.SpinFails {
+		// Steps counts returns of bubble.Wait/Advance: while it moves, the harness is still stepping the
+		// execution (slow is not stuck). A livelock verdict needs all of: SpinFails asked for it, no harness
+		// step for a long real time (or for 20 s together with 1.5 GiB of growth), and cores kept busy.
+		why := ""
+		deadline := time.After(limit)
+		tick := time.NewTicker(time.Second)
+		defer tick.Stop()
+		var ms0 runtime.MemStats
+		runtime.ReadMemStats(&ms0)
+		steps, lastStep := syncshim.Steps.Load(), time.Now()
+		grown := false
+		for why == "" {
+			select {
+			case <-done:
+				return
+			case <-deadline:
+				why = fmt.Sprintf("within %v of real time", limit)
+			case <-tick.C:
+				if n := syncshim.Steps.Load(); n != steps {
+					steps, lastStep = n, time.Now()
+				}
+				// one execution that has grown the process by more than 1.5 GiB is not going to end well (the
+				// sandbox has no memory limit and 16 shards run side by side): treat it as the limit having expired
+				var ms runtime.MemStats
+				runtime.ReadMemStats(&ms)
+				if r.memLimit != 0 && ms.Sys-ms.HeapReleased > ms0.Sys-ms0.HeapReleased+(1536<<20) {
+					grown = true
+					why = fmt.Sprintf("and grew the process by more than 1.5 GiB within %v of real time", time.Since(lastStep).Round(time.Second))
+				}
+				if r.SpinFails && time.Since(lastStep) > 120*time.Second {
+					why = "for 120 s of real time within one harness step"
+				}
+			}
+		}
+		{
+			stalled := time.Since(lastStep)
+			if r.SpinFails && (stalled > 60*time.Second || (grown && stalled > 20*time.Second)) {
 				// is something spinning? a goroutine that loops without ever blocking keeps the bubble from
 				// becoming quiescent and burns a core; a wait the bubble does not understand burns nothing
 				c0 := cpuSeconds()
 				time.Sleep(2 * time.Second)
-				if used := cpuSeconds() - c0; used > 1.5 {
-					r.Fail("busy-loop|"+strings.TrimPrefix(fingerprint, "hang|"), fmt.Sprintf("%s: the execution never became quiescent within %v of real time and the process keeps burning %.1f cores: some goroutine is looping without blocking", what, limit, used/2), 0, c)
+				if used := cpuSeconds() - c0; used > 1.5 && syncshim.Steps.Load() == steps {
+					r.Fail("busy-loop|"+strings.TrimPrefix(fingerprint, "hang|"), fmt.Sprintf("%s: the execution did not become quiescent %s (no harness step for %v) and the process keeps burning %.1f cores: some goroutine is looping without blocking", what, why, stalled.Round(time.Second), used/2), 0, c)
 				}
 			}
 			r.mu.Lock()
